@@ -527,7 +527,7 @@ def run(ctx):
         for dbl in ("none", "all"):
             progs.append(("enum", p, "line-per-load", dbl, "plain"))
     dist["enumerated_programs"] = len(progs) - dist["sweep_programs"]
-    for _ in range(ctx.n(1200, 40000)):
+    for _ in range(ctx.n(1100, 40000)):
         lay = rng.choice(LAYOUTS)
         # wave 8: in the writer's layout a third of the programs in the writer's doubling - preamble and mode codes doubled,
         # the codes inside the rows (special / extended characters, mid-row codes, backspace) single: emit_load_wm (507)
@@ -673,7 +673,7 @@ def run(ctx):
                 "input": c[1], "program": c[1], "stream": c[4], "history": hist, "difference": d,
                 "impl_obs": show(o2), "fresh_obs": show(o1)})
     # D: soups that stay in pop-on mode - decoder model vs implementation at the level the property fixes
-    soups = [sccsoup.soup(rng, popon_only=True) for _ in range(ctx.n(1100, 40000))]
+    soups = [sccsoup.soup(rng, popon_only=True) for _ in range(ctx.n(1000, 40000))]
     # loads that never address a row (text right after ENM RCL / RCL): the position they get depends on whether the
     # tracker was reset - outside the statement, compared with the model only
     for row in (1, 7, 14, 15):
